@@ -527,7 +527,7 @@ Lemma KT_register_tail T u pid :
   K (LT E T) (set_cuser u ;;;
               handled <- fire E EvAfterRegister false ;;
               if handled then ret tt else
-              put_session k_uid pid ;;; log [pid] ;;; redirect E (ro_ok p_register_ok)) (fun _ => True).
+              put_session k_uid pid ;;; log [pid] ;;; redirect E (ro_ok (p_register_ok_of (e_cfg E)))) (fun _ => True).
 Proof. intros G. k_go. Qed.
 
 Lemma same_uc_2fa h h' : uc h' = uc h -> filed (h_st h) -> ctx_ok h ->
